@@ -1,5 +1,6 @@
 """C20 - ThresholdCounter: never over-counts, bounded under-count, stays small."""
 import collections
+import types
 import math
 
 from hypothesis import strategies as st
@@ -50,7 +51,7 @@ def strat(tier):
             st.tuples(st.just('add'), key), st.tuples(st.just('add'), key), st.tuples(st.just('add'), key),
             st.tuples(st.just('adds'), st.lists(key, min_size=1, max_size=30)),
             st.tuples(st.just('update_iter'), st.lists(key, max_size=12), st.sampled_from(['list', 'iter', 'tuple'])),
-            st.tuples(st.just('update_map'), st.lists(st.tuples(key, cnt).map(list), max_size=5), st.sampled_from(['dict', 'counter'])),
+            st.tuples(st.just('update_map'), st.lists(st.tuples(key, cnt).map(list), max_size=5), st.sampled_from(['dict', 'counter', 'odict', 'proxy', 'chainmap', 'userdict'])),
             st.tuples(st.just('update_kw'), st.lists(st.tuples(key, cnt).map(list), min_size=1, max_size=4)),
             st.tuples(st.just('update_both'), st.lists(key, max_size=6), st.lists(st.tuples(key, cnt).map(list), min_size=1, max_size=3)),
             st.tuples(st.just('plan'),
@@ -64,8 +65,15 @@ def strat(tier):
     return case()
 
 
+_SPECIAL_KEYS = {1: None, 3: 0, 5: '', 7: ()}     # None / falsy keys among the frequent ones
+
+
 def K(i):
-    return 'k%d' % i
+    return _SPECIAL_KEYS.get(i, 'k%d' % i)
+
+
+def KW(i):
+    return 'k%d' % i        # keyword-argument names must be identifiers
 
 
 def harmonic(n):
@@ -164,12 +172,13 @@ def run(case):
         for k, c in d.items():
             if k not in true or c > true[k] or c < 1:
                 return bad('items', 'items() reports %r: %r, true count %r' % (k, c, true.get(k)))
-        if _call(lambda: sorted(tc.keys())) != ('ok', sorted(d)) or _call(lambda: sorted(tc.iterkeys())) != ('ok', sorted(d)):
+        if _call(lambda: sorted(tc.keys(), key=repr)) != ('ok', sorted(d, key=repr)) or \
+                _call(lambda: sorted(tc.iterkeys(), key=repr)) != ('ok', sorted(d, key=repr)):
             return bad('keys', 'keys() disagree with items()')
         if _call(lambda: sorted(tc.values())) != ('ok', sorted(d.values())) or \
                 _call(lambda: sorted(tc.itervalues())) != ('ok', sorted(d.values())):
             return bad('values', 'values() disagree with items()')
-        if _call(lambda: sorted(tc.iteritems())) != ('ok', sorted(d.items())):
+        if _call(lambda: sorted(tc.iteritems(), key=repr)) != ('ok', sorted(d.items(), key=repr)):
             return bad('iteritems', 'iteritems() disagree with items()')
         el = _call(lambda: collections.Counter(tc.elements()))
         if el != ('ok', collections.Counter(d)):
@@ -231,20 +240,22 @@ def run(case):
             d = collections.OrderedDict()
             for i, c in op[1]:
                 d[K(i)] = c
-            arg = dict(d) if op[2] == 'dict' else collections.Counter(d)
+            arg = {'dict': dict, 'counter': collections.Counter, 'odict': collections.OrderedDict,
+                   'proxy': lambda x: types.MappingProxyType(dict(x)), 'chainmap': lambda x: collections.ChainMap(dict(x)),
+                   'userdict': lambda x: collections.UserDict(dict(x))}[op[2]](d)
             ks = [k for k, c in d.items() for _ in range(c)]
             calls.append(('update(%s %r)' % (op[2], dict(d)), ks, lambda a=arg: tc.update(a)))
         elif name == 'update_kw':
             d = collections.OrderedDict()
             for i, c in op[1]:
-                d[K(i)] = c
+                d[KW(i)] = c
             ks = [k for k, c in d.items() for _ in range(c)]
             calls.append(('update(**%r)' % dict(d), ks, lambda a=dict(d): tc.update(**a)))
         elif name == 'update_both':
             ks1 = [K(i) for i in op[1]]
             d = collections.OrderedDict()
             for i, c in op[2]:
-                d[K(i)] = c
+                d[KW(i)] = c
             ks = ks1 + [k for k, c in d.items() for _ in range(c)]
             calls.append(('update(%r, **%r)' % (ks1, dict(d)), ks, lambda a=ks1, b=dict(d): tc.update(a, **b)))
         elif name == 'plan':
